@@ -355,7 +355,13 @@ class Verifier(Stmts):
             clo = Closure(fnode, {}, ci.qual if ci else None, mi, name=u.dotted)
             return self.inline(st, clo, args, kwargs, node)
         bound = self.bind_unit_args(st, u, args, kwargs, node)
-        fr = self.push_frame(st); fr.update(bound); fr['__contract_frame__'] = True
+        captured = {}
+        for n_ in getattr(u, 'closure', ()):
+            # free variables of a nested function: the very cells of the enclosing activation (aliased, not copied)
+            for fr_ in reversed(st.frames):
+                if n_ in fr_: captured[n_] = fr_[n_]; break
+            else: raise Unsupported('closure variable %s of %s not found at %s' % (n_, u.dotted, self.loc(node)))
+        fr = self.push_frame(st); fr.update(captured); fr.update(bound); fr['__contract_frame__'] = True
         sv = SV(self, st)
         if u.requires is not None:
             for name, z in u.requires(sv):
